@@ -81,7 +81,7 @@ def lines(tier):
                 add(a + s1 + b + s2 + c + b"\r\n")
                 if tier == "thorough":
                     add(a + s1 + b + s2 + c + b"\n")
-    four = FIELDS if tier == "thorough" else SMALL_FIELDS
+    four = (SMALL_FIELDS + [b"HEAD", b"HTTP/", b"12", b"$", b"+text/plain", b"\xff", b"/wap", b"Gemini://h/", b"x"]) if tier == "thorough" else SMALL_FIELDS
     for combo in itertools.product(four, repeat=4):
         for s in ((b" ", b"\t") if tier == "quick" else SEPS):
             add(s.join(combo) + b"\r\n")
@@ -270,6 +270,32 @@ def _sniff(part):
                 part.violation("sniff|byte=%d|ctx=%d|identity" % (b, with_ctx), "wrap_socket returned another object", {"kind": "sniff", "byte": b, "ctx": with_ctx})
 
 
+def _silent(part):
+    """A connection that says nothing: with a receive timeout the sniff must give up with an
+    error; it must never decide 'plaintext' (or 'TLS') without having seen the first byte."""
+    config = rig.make_config(rig.fresh_dir("c02q"))
+    for with_ctx in (True,):
+        server = rig.make_server(config)
+        ctx = _StubContext()
+        server.context = ctx
+        a, c = socket.socketpair()
+        a.settimeout(0.3)
+        decided = None
+        try:
+            ret = server.wrap_socket(a)
+            decided = "returned the %s socket" % ("wrapped" if ctx.wrapped else "plain")
+        except (socket.timeout, BlockingIOError, OSError):
+            decided = None
+        part.evaluations += 1
+        part.transitions += 1
+        part.state("silent", with_ctx)
+        part.outcome("silent", decided is None)
+        if decided is not None:
+            part.violation("sniff|silent|decided", "nothing was sent, the receive timeout expired, and wrap_socket %s: the connection was classified without its first byte" % decided, {"kind": "sniff", "byte": -1, "ctx": with_ctx})
+        a.close()
+        c.close()
+
+
 def _live(part):
     """One real round trip per shipped protocol class through a listening server
     (real TLS handshake for the secure ones)."""
@@ -336,6 +362,7 @@ def _shard_aux(shard, seed, tier):
     part = core.Partial()
     if shard == "sniff":
         _sniff(part)
+        _silent(part)
     else:
         _live(part)
     return part
@@ -348,6 +375,7 @@ def replay(case):
         return (bad[0][0], bad[0][1]) if bad else None
     if case["kind"] == "sniff":
         _sniff(part)
+        _silent(part)
     else:
         _live(part)
     if part.violations:
